@@ -69,3 +69,13 @@ def suback_at(gs: ListIB, i: int, j: int):
         suback_at(gs, i - 1, j)
     ensures(len(suback_pl(gs, i)) == i)
     ensures(implies(0 <= j and j < i, suback_pl(gs, i)[j] == gs[j][0] + 128 * b2i(gs[j][1])))
+
+
+@lemma
+def mstr_split(s: Str, rest: Bytes):
+    """a length-prefixed string followed by anything parses back into the string and that rest"""
+    requires(encodable(s) and len(utf8(s)) <= 65535)
+    ensures(len(mstr(s) + rest) == 2 + len(utf8(s)) + len(rest))
+    ensures((mstr(s) + rest)[0] * 256 + (mstr(s) + rest)[1] == len(utf8(s)))
+    ensures((mstr(s) + rest)[2:2 + len(utf8(s))] == utf8(s))
+    ensures((mstr(s) + rest)[2 + len(utf8(s)):] == rest)
